@@ -372,15 +372,24 @@ fn derive_copy_shape(def: &CopyDef, symbol_table: &mut BTreeMap<Rc<str>, Shape>)
                 .fields
                 .iter()
                 .map(|(tok, _constraint, expr)| {
-                    (tok.fragment.clone(), expr.derive_shape(symbol_table))
+                    (
+                        tok.fragment.clone(),
+                        (expr.derive_shape(symbol_table), expr.pos().clone()),
+                    )
                 })
-                .collect::<BTreeMap<Rc<str>, Shape>>();
+                .collect::<BTreeMap<Rc<str>, (Shape, Position)>>();
             // 1. Do our copyable fields have the right names and shapes based on mdef.items.
             let mut as_declared = true;
             for (sym, shape) in mdef.items.iter() {
-                if let Some(s) = arg_fields.get(&sym.val) {
+                if let Some((s, arg_pos)) = arg_fields.get(&sym.val) {
                     if let Shape::TypeErr(pos, msg) = shape.narrow(s, symbol_table) {
-                        return Shape::TypeErr(pos, msg);
+                        // An argument that is itself in error keeps its
+                        // position. A mismatch found here is reported at the
+                        // argument, not where its value was defined.
+                        if let Shape::TypeErr(_, _) = s {
+                            return Shape::TypeErr(pos, msg);
+                        }
+                        return Shape::TypeErr(arg_pos.clone(), msg);
                     }
                     as_declared = as_declared
                         && shape.equivalent(s, symbol_table)
